@@ -274,6 +274,24 @@ def run_check(pid, tier, seed):
                         extra_confirmed[0] += 1
             else:
                 nonrepro.append((ob.name, v['label'], path, r))
+        # replay self-test: witnesses of *passing* paths go through the same replay code on the real package and
+        # must come back "not violated" without an error -- so that the replay path is exercised on every run,
+        # not only when something is wrong
+        if agg.wsamples and not agg.viols:
+            d = os.path.join(OUT, 'replays', pid)
+            os.makedirs(d, exist_ok=True)
+            paths = []
+            for i, ws in enumerate(agg.wsamples[:2]):
+                path = os.path.join(d, '%s-selftest%d.json' % (ob.name, i))
+                with open(path, 'w') as f:
+                    json.dump({'property': pid, 'obligation': ob.name, 'label': 'selftest', 'witness': to_json(ws)}, f)
+                paths.append(path)
+            for path, r in zip(paths, replay_files(paths)):
+                replays_run += 1
+                if r.get('violated') or (r.get('error') and 'Traceback' in str(r.get('error'))):
+                    inconclusive.append('%s: replay self-test failed on a passing path: %s' % (ob.name, str(r)[:400]))
+                else:
+                    os.remove(path)
         rep['violations_found'] = len(agg.viols)
         rep['samples'] = agg.samples[:3]
 
